@@ -4,7 +4,9 @@
 (* that reached the receiver (dlv, with the per-message metadata seen on the wire) and    *)
 (* batches handed to the error handler (dead).  At the end of every history (End: Close   *)
 (* has returned and all callers have returned) each accepted message must have exactly    *)
-(* one fate.  Every line is consumed; deviations are printed:                              *)
+(* one fate.  Message ids are stream*1000 + sequence number (stream = one sending goroutine *)
+(* to one receiver); order is checked per stream.  Every line is consumed; deviations are   *)
+(* printed:                                                                                *)
 (*   <<"MISMATCH", line, kind, id, detail>>  kind = lost | dup | order | phantom | md      *)
 (* `lost` carries "late" when the message was accepted after the close had begun (the     *)
 (* witness class of finding LateSubmit) and "early" otherwise.                             *)
@@ -33,8 +35,8 @@ Step ==
             /\ \A i \in 1..Len(e.ids) :
                  /\ Rep(e.ids[i] > 0, "garbled", e.ids[i], "payload not decodable")
                  /\ Rep(e.ids[i] \notin dlv \cup dead, "dup", e.ids[i], "delivered again")
-                 /\ Rep(\A d \in dlv : d \div 10 = e.ids[i] \div 10 => d < e.ids[i], "order", e.ids[i], "after a later message of its caller")
-                 /\ Rep(\A j \in 1..(i - 1) : e.ids[j] \div 10 = e.ids[i] \div 10 => e.ids[j] < e.ids[i], "order", e.ids[i], "batch order")
+                 /\ Rep(\A d \in dlv : d \div 1000 = e.ids[i] \div 1000 => d < e.ids[i], "order", e.ids[i], "after a later message of its caller")
+                 /\ Rep(\A j \in 1..(i - 1) : e.ids[j] \div 1000 = e.ids[i] \div 1000 => e.ids[j] < e.ids[i], "order", e.ids[i], "batch order")
                  /\ Rep(\A j \in 1..(i - 1) : e.ids[j] # e.ids[i], "dup", e.ids[i], "twice in one batch")
                  /\ Rep(e.mds[i] = e.ids[i], "md", e.ids[i], e.mds[i])
             /\ dlv' = dlv \cup Ids(e.ids) /\ UNCHANGED <<acc, late, rej, dead, closing>>
